@@ -1,6 +1,6 @@
 (* C09 — property theorems.  Nothing but statements, `exact`, Print Assumptions. *)
 From FwdLib Require Import Bytes.
-From G09 Require Import Tables H2Relay Ledger Check Term Obligations.
+From G09 Require Import Tables H2Relay Ledger Check Term Obligations PairBasics PairWin.
 Open Scope N_scope.
 
 (* The split loop of data() terminates for every payload whenever the peer's
@@ -13,3 +13,29 @@ Print Assumptions T09_data_terminates.
 Theorem T09_chunks_terminate : forall first cmax data, 0 < cmax -> split_chunks first cmax data <> None.
 Proof. exact split_chunks_terminates. Qed.
 Print Assumptions T09_chunks_terminate.
+
+(* For every history of frames (any number of streams, both directions, any visiting order of the
+   map ranges, any HPACK behaviour), every DATA frame an endpoint is sent fits, at that moment, both
+   the stream window and the connection window that endpoint has granted - as computed by the
+   endpoint itself from the SETTINGS and WINDOW_UPDATE frames it sent and the DATA it received
+   (Ledger.wl_run): no release ever drives a receiver's window below zero.
+   hist_wf: what http2.Framer guarantees (no stream frame on stream 0), and at most one
+   INITIAL_WINDOW_SIZE entry per SETTINGS frame. *)
+Theorem T09_emit_within_window :
+  forall (dstate estate : Type) dec enc dresize eresize (evs : list event) (d1 : dstate) (e1 : estate) d2 e2 x,
+    hist_wf evs ->
+    windows_respected x (snd (run dec enc dresize eresize (pair0 dstate estate d1 e1 d2 e2) evs)) = true.
+Proof. exact (fun ds es dec enc dr er => emit_within_window ds es dec enc dr er ob_emit_gate ob_emit_debits ob_settings_delta_not_on_connection). Qed.
+Print Assumptions T09_emit_within_window.
+
+(* The windows the relay keeps (lazily created per-stream buffers, connection window) are exactly the
+   receiver's ledger, for every stream and for the connection (T09_conn_credit is the first conjunct). *)
+Theorem T09_window_is_ledger :
+  forall (dstate estate : Type) dec enc dresize eresize (evs : list event) (d1 : dstate) (e1 : estate) d2 e2 x,
+    hist_wf evs -> all_ok (snd (run dec enc dresize eresize (pair0 dstate estate d1 e1 d2 e2) evs)) ->
+    let p := fst (run dec enc dresize eresize (pair0 dstate estate d1 e1 d2 e2) evs) in
+    let l := final_wled x (snd (run dec enc dresize eresize (pair0 dstate estate d1 e1 d2 e2) evs)) in
+    f_conn (r_flow (toward x p)) = l_conn l /\
+    forall s, s <> 0 -> win_of (r_flow (toward x p)) s = led_window l s.
+Proof. exact (fun ds es dec enc dr er => window_is_ledger ds es dec enc dr er ob_emit_gate ob_emit_debits ob_settings_delta_not_on_connection). Qed.
+Print Assumptions T09_window_is_ledger.
